@@ -79,3 +79,38 @@ def generate(g, h):
     g.strlist('NAT_STRS', lambda: literal_strs(nat, 'Method.setup_firewall'))
     g.strlist('NFT_STRS', lambda: literal_strs(nft, 'Method.setup_firewall'))
     g.strlist('TPROXY_STRS', lambda: literal_strs(tproxy, 'Method.setup_firewall'))
+
+    def nft_base_hooks():
+        """['name:type:hook:priority'] of every `_nft('add chain', NAME, DECL)` with a base-chain declaration;
+        DECL may be a literal or `TEMPLATE % 'hook'` with TEMPLATE a literal assigned in the same function."""
+        f = h.func(nft, 'Method.setup_firewall')
+        consts = {}
+        for n in ast.walk(f):
+            if isinstance(n, ast.Assign) and len(n.targets) == 1 and isinstance(n.targets[0], ast.Name) \
+                    and isinstance(n.value, ast.Constant) and isinstance(n.value.value, str):
+                consts[n.targets[0].id] = n.value.value
+
+        def text(node):
+            if isinstance(node, ast.Constant) and isinstance(node.value, str):
+                return node.value
+            if isinstance(node, ast.Name) and node.id in consts:
+                return consts[node.id]
+            if isinstance(node, ast.BinOp) and isinstance(node.op, ast.Mod):
+                left, right = text(node.left), node.right
+                if isinstance(right, ast.Tuple):
+                    return left % tuple(text(e) for e in right.elts)
+                return left % text(right)
+            raise ValueError('cannot evaluate %s' % ast.dump(node))
+        out = []
+        for c in h.calls(f, lambda c: h.callname(c) == '_nft'):
+            if len(c.args) == 3 and isinstance(c.args[0], ast.Constant) and c.args[0].value == 'add chain':
+                name, decl = text(c.args[1]), text(c.args[2])
+                m = re.search(r'type\s+(\w+)\s+hook\s+(\w+)\s+priority\s+(-?\d+)', decl)
+                assert m, decl
+                out.append('%s:%s:%s:%s' % (name, m.group(1), m.group(2), m.group(3)))
+        return out
+    g.strlist('NFT_BASE_CHAINS', nft_base_hooks)
+    # the Lean packet walk identifies "forwarded" with the chain named prerouting and "locally generated" with
+    # the chain named output: each must be a nat chain registered at the hook of its own name
+    g.boolean('NFT_BASE_HOOKS_OK', lambda: sorted(x.rsplit(':', 1)[0] for x in nft_base_hooks()) ==
+              ['output:nat:output', 'prerouting:nat:prerouting'])
